@@ -54,70 +54,79 @@ example : connect 1000 1000 5000 32767 4 = ⟨[1000, 2000, 4000, 5000, 5000], [2
   decide
 example : (connect 0 1000 5000 32767 4).waits = [1000, 2000, 4000, 5000] := by decide
 
-/-- **Backoff of the code as it is spelled now** (consumes the regenerated call arguments and `reconnectRetries`):
+/-- **Backoff of the code as it is called now** (consumes the regenerated call arguments):
 under `0 < min ≤ max < 2^62`, a reconnect (`HandleServerShutdown`) whose first `fails < 32767` attempts are refused
 waits `min, 2·min, 4·min, …` capped at `max` – restarting from the minimum – and then succeeds; the first connect
 waits nothing before its first attempt and then the same sequence. -/
 theorem C18_backoff_as_called (minB maxB : Int) (fails : Nat) (h0 : 0 < minB) (h1 : minB ≤ maxB)
-    (hmax : maxB < 2 ^ 62) (hf : fails < Pool.Gen.C18.reconnectRetries) :
+    (hmax : maxB < 2 ^ 62) (hf : fails < Pool.Gen.C18Sem.reconnectRetriesArg)
+    (hf' : fails < Pool.Gen.C18Sem.firstConnectRetries) :
     (∃ r, reconnect minB maxB fails = some r ∧ r.ok = true ∧
       r.waits = (List.range (fails + 1)).map (fun i => min (minB * 2 ^ i) maxB)) ∧
     (∃ r, firstConnect minB maxB fails = some r ∧ r.ok = true ∧
       r.waits = (List.range fails).map (fun i => min (minB * 2 ^ i) maxB)) := by
   constructor
   · refine ⟨_, rfl, ?_⟩
-    have := C18_backoff_shape minB minB maxB Pool.Gen.C18.reconnectRetries fails h0 h1 hmax hf
+    have := C18_backoff_shape minB minB maxB Pool.Gen.C18Sem.reconnectRetriesArg fails h0 h1 hmax hf
     simp only [this, and_self]
   · refine ⟨_, rfl, ?_⟩
-    have := C18_backoff_shape_first minB maxB Pool.Gen.C18.reconnectRetries fails h0 h1 hmax hf
+    have := C18_backoff_shape_first minB maxB Pool.Gen.C18Sem.firstConnectRetries fails h0 h1 hmax hf'
     exact ⟨this.2, this.1⟩
 
 example : reconnect 1000 8000 5 = some ⟨[1000, 2000, 4000, 8000, 8000, 8000], [2000, 4000, 8000, 8000, 8000], true⟩ := by
   decide
 
-/-- **The source still has the shape the model mirrors** (regenerated on every run; `decide` fails when the Go code
-changes): hashed concatenation order, SHA-256, the backoff statements of the retry loop, the routing branch of
-`ErrChanSwitch.run` under the mutex, `Divert`/`Restore`, the bookkeeping order of `HandleServerShutdown`
-(a loop around the reconnect body – whatever the helper is called – that starts over while `reconnectDirty`; in the
-body a failing `checkPendingBatch` replaces every subscription by an inactive one before returning, then all keys are
-deleted before re-subscribing and the first error is returned after `keepSubscriptions`), the reader's reaction to a shutdown notice
-(only close + mark dirty while a re-connect is in progress) and `connectAndAuthenticate` (map insertion before
-`authenticate`, divert before / restore deferred), the calls of `authenticate`, and `serverHandler`'s reaction. -/
-theorem C18_source_shape :
+/-- **The source still does what the model mirrors – semantic essentials** (regenerated on every run by an extractor
+that normalises if-chains / switches, flipped comparisons and renamed locals and follows same-type helper methods, so
+behaviour-preserving refactorings leave these facts unchanged; `decide` fails when the behaviour described changes):
+
+* hashing: the three auth functions hash their two parameters in order with SHA-256;
+* backoff: after a failed attempt the waited duration `b` becomes `min(max, if 2b = 0 then MIN else 2b)` (`nextBackoff`),
+  a wait happens iff `b ≠ 0`, `b` starts from the first parameter, the second parameter bounds the attempts
+  (`connLoop`/`connect`); call sites pass `(0, 32767)` on a first connect and `(MIN, 32767)` on a reconnect;
+* switch: a received error is sent exactly once – to `tempChan` iff `diverted`, else to `mainChan` – with the flag read
+  and the send made while holding the mutex, every channel operation honours `quit`, the value sent is the value
+  received (`Switch.step`: recv / lock / deliver); `Divert`/`Restore` set both fields under the mutex;
+* reconnect body (whatever function holds it): `closeStream` < `connectServerStream` < `checkPendingBatch` < first
+  `StartAccountSubscription`; the map is emptied before re-subscribing; every error return that can follow the
+  emptying keeps the accounts; a failing batch check keeps them too (`reconnectOnce`, `resubLoop`, `keepAccts`);
+  `HandleServerShutdown` starts over while dirty, the reader only marks a running reconnect dirty (`handleShutdown`);
+* `connectAndAuthenticate`: Divert < map insertion < authenticate with Restore deferred, never deletes, re-connects
+  inline at the three places the diverted `ErrServerErrored` can surface (`connectAndAuth`);
+* `authenticate`: CommitAccount (stored in the subscription), send, AuthHash(commit, copied challenge), SignMessage
+  (that hash, account key locator), send (`authCommit`/`authSubscribe`);
+* `serverHandler`: reconnects for every error that is neither nil nor `ErrServerShutdown` and retries while the result
+  is neither nil nor `ErrClientShutdown` (`handlerLoop`). -/
+theorem C18_source_essentials :
     Pool.Gen.C18.hashOrderCommitAccount = [0, 1] ∧ Pool.Gen.C18.hashOrderAuthChallenge = [0, 1] ∧
-    Pool.Gen.C18.hashOrderAuthHash = [0, 1] ∧ Pool.Gen.C18.concatAndHashWrites = ["a", "b"] ∧
+    Pool.Gen.C18.hashOrderAuthHash = [0, 1] ∧ Pool.Gen.C18.concatAndHashWrites = ["0", "1"] ∧
     Pool.Gen.C18.concatAndHashIsSha256 = true ∧
-    Pool.Gen.C18.retryLoopHeader = "i := 0; i < numRetries; i++" ∧ Pool.Gen.C18.backoffInit = "initialBackoff" ∧
-    Pool.Gen.C18.backoffStmts =
-      ["if backoff != 0 { err = c.wait(backoff); if err != nil { return err } }", "backoff *= 2",
-       "if backoff == 0 { backoff = c.cfg.MinBackoff }",
-       "if backoff > c.cfg.MaxBackoff { backoff = c.cfg.MaxBackoff }"] ∧
-    Pool.Gen.C18.switchRun =
-      ["<-s.incomingChan", "s.Lock()", "if s.diverted", "s.tempChan <- msg", "s.mainChan <- msg", "s.Unlock()"] ∧
-    Pool.Gen.C18.switchDivert = "s.Lock(); defer s.Unlock(); s.tempChan = tempChan; s.diverted = true" ∧
-    Pool.Gen.C18.switchRestore = "s.Lock(); defer s.Unlock(); s.tempChan = nil; s.diverted = false" ∧
-    Pool.Gen.C18.handleShutdownShape =
-      ["c.reconnecting++", "c.<reconnect-body>", "if c.reconnectDirty", "c.reconnectDirty = false", "continue",
-       "c.reconnecting--", "return err", "c.closeStream", "c.connectServerStream", "return err",
-       "c.checkPendingBatch", "range c.subscribedAccts", "delete", "c.keepSubscriptions", "return err",
-       "range c.subscribedAccts", "delete", "range acctKeys", "c.StartAccountSubscription", "c.keepSubscriptions",
-       "return err", "return nil"] ∧
-    Pool.Gen.C18.shutdownNoticeReaction =
-      ["if c.reconnecting > 0", "c.reconnectDirty = true", "c.closeStream", "return", "c.HandleServerShutdown",
-       "return"] ∧
-    Pool.Gen.C18.connectAndAuthShape =
-      ["c.connectServerStream", "c.errChanSwitch.Divert", "defer c.errChanSwitch.Restore()",
-       "c.subscribedAccts[acctPubKey] = sub", "sub.authenticate", "if errors.Is(err, ErrServerErrored)",
-       "c.HandleServerShutdown", "if err == ErrServerErrored", "c.HandleServerShutdown",
-       "if err == ErrServerErrored", "c.HandleServerShutdown"] ∧
-    Pool.Gen.C18.authenticateCalls =
-      ["copy(acctPubKey[:], s.acctKey.PubKey.SerializeCompressed())", "account.CommitAccount(acctPubKey, nonce)",
-       "copy(serverChallenge[:], msg.Challenge.Challenge)", "account.AuthHash(s.commitHash, serverChallenge)",
-       "s.signer.SignMessage(ctx, authHash[:], s.acctKey.KeyLocator)"] ∧
-    Pool.Gen.C18.handlerReaction =
-      ["err := <-s.auctioneer.StreamErrChan", "if err != nil && err != auctioneer.ErrServerShutdown",
-       "for err != nil && err != auctioneer.ErrClientShutdown", "return",
-       "s.auctioneer.HandleServerShutdown( err, )"] := by decide
+    Pool.Gen.C18Sem.backoffUpdate =
+      "ite((MAX < ite(((2 * b) == 0), MIN, (2 * b))), MAX, ite(((2 * b) == 0), MIN, (2 * b)))" ∧
+    Pool.Gen.C18Sem.waitGuard = "(0 != b)" ∧ Pool.Gen.C18Sem.backoffInitParam = 0 ∧
+    Pool.Gen.C18Sem.retryBoundParam = 1 ∧
+    Pool.Gen.C18Sem.firstConnectInit = "0" ∧ Pool.Gen.C18Sem.reconnectInit = "MIN" ∧
+    Pool.Gen.C18Sem.firstConnectRetries = Pool.Gen.C18.reconnectRetries ∧
+    Pool.Gen.C18Sem.reconnectRetriesArg = Pool.Gen.C18.reconnectRetries ∧
+    Pool.Gen.C18Sem.switchRouting = ["!s.diverted -> s.mainChan", "s.diverted -> s.tempChan"] ∧
+    Pool.Gen.C18Sem.switchSendsUnderMutex = true ∧ Pool.Gen.C18Sem.switchDivertedReadUnderMutex = true ∧
+    Pool.Gen.C18Sem.switchSendsHonourQuit = true ∧ Pool.Gen.C18Sem.switchRecvHonoursQuit = true ∧
+    Pool.Gen.C18Sem.switchForwardsReceived = true ∧
+    Pool.Gen.C18Sem.divertLocked = true ∧ Pool.Gen.C18Sem.divertSets = ["s.diverted = true", "s.tempChan = <arg>"] ∧
+    Pool.Gen.C18Sem.restoreLocked = true ∧ Pool.Gen.C18Sem.restoreSets = ["s.diverted = false", "s.tempChan = nil"] ∧
+    Pool.Gen.C18Sem.reconnectOrder = true ∧ Pool.Gen.C18Sem.reconnectEmptiesMapFirst = true ∧
+    Pool.Gen.C18Sem.reconnectKeepsOnFailure = true ∧ Pool.Gen.C18Sem.batchFailureKeeps = true ∧
+    Pool.Gen.C18Sem.shutdownStartsOverWhileDirty = true ∧
+    Pool.Gen.C18Sem.noticeOnlyMarksWhileReconnecting = true ∧ Pool.Gen.C18Sem.noticeElseHandles = true ∧
+    Pool.Gen.C18Sem.subscribeOrder = true ∧ Pool.Gen.C18Sem.inlineReconnects = 3 ∧
+    Pool.Gen.C18Sem.subscribeNeverDeletes = true ∧
+    Pool.Gen.C18Sem.authenticateCalls =
+      ["account.CommitAccount", "s.sendMsg", "account.AuthHash", "s.signer.SignMessage", "s.sendMsg"] ∧
+    Pool.Gen.C18Sem.commitStoredInSubscription = true ∧ Pool.Gen.C18Sem.authHashOfCommitAndChallenge = true ∧
+    Pool.Gen.C18Sem.signsAuthHashWithAccountKey = true ∧
+    Pool.Gen.C18Sem.handlerGuard = ["auctioneer.ErrServerShutdown != e", "e != nil"] ∧
+    Pool.Gen.C18Sem.handlerRetryWhile = ["auctioneer.ErrClientShutdown != e", "e != nil"] ∧
+    Pool.Gen.C18Sem.handlerRetryFeedsBack = true := by decide
 
 /-- **The auth functions share no mutable state** (regenerated call-graph fact): `CommitAccount`, `AuthChallenge`,
 `AuthHash` and everything they call inside package account reference no package-level variable, so handshakes that
